@@ -3,8 +3,11 @@ package props
 import (
 	"strings"
 	"sync"
+	"sync/atomic"
 
 	"github.com/vektah/gqlparser/v2/ast"
+	"github.com/vektah/gqlparser/v2/parser"
+	"github.com/vektah/gqlparser/v2/validator"
 
 	"verifharness/internal/core"
 	"verifharness/internal/gen"
@@ -367,6 +370,53 @@ func runC08(c *core.Ctx) {
 		mu.Unlock()
 		c.Seen(k.Expect != "", []byte(k.Query), []byte(k.Srcs[0]))
 	})
+	// the same parsed document validated against one schema and then against another: the second
+	// result is the result for the second schema (nothing of the first validation may survive in
+	// the document). Documents with fragment cycles are left out (F-D2).
+	schemaOf := map[string]*ast.Schema{}
+	var texts []string
+	for _, k := range cases {
+		if _, ok := schemaOf[k.Srcs[0]]; !ok {
+			if sc, err := loadImpl(k.Srcs...); err == nil {
+				schemaOf[k.Srcs[0]] = sc
+				texts = append(texts, k.Srcs[0])
+			} else {
+				schemaOf[k.Srcs[0]] = nil
+			}
+		}
+	}
+	var nTwo int64
+	c.Pool.ParFor(len(cases), func(w, i int) {
+		k := cases[i]
+		if i%3 != 0 || len(texts) < 2 {
+			return
+		}
+		other := texts[(i/3)%len(texts)]
+		if other == k.Srcs[0] {
+			other = texts[(i/3+1)%len(texts)]
+		}
+		sA, sB := schemaOf[other], schemaOf[k.Srcs[0]]
+		if sA == nil || sB == nil {
+			return
+		}
+		doc, perr := parser.ParseQuery(&ast.Source{Input: k.Query})
+		if perr != nil {
+			return
+		}
+		func() {
+			defer func() { _ = recover() }()
+			validator.Validate(sA, doc)
+			second := DumpErrors(validator.Validate(sB, doc))
+			fresh, _ := parser.ParseQuery(&ast.Source{Input: k.Query})
+			want := DumpErrors(validator.Validate(sB, fresh))
+			atomic.AddInt64(&nTwo, 1)
+			if second != want && !strings.Contains(want, "NoFragmentCycles") {
+				c.ReportOracle("validation-depends-on-an-earlier-schema", map[string]interface{}{"query": k.Query, "first_schema": other, "second_schema": k.Srcs[0],
+					"after_the_other_schema": second, "fresh_document": want})
+			}
+		}()
+	})
+	c.Count("documents_validated_against_two_schemas", nTwo)
 	for r, n := range ruleHits {
 		c.Count("errors_of_rule_"+r, n)
 	}
